@@ -158,6 +158,22 @@ def run(ctx):
     CH = 65536
     shapes = [[[0]], [[1]], [[CH - 40]], [[CH - 1]], [[CH]], [[CH + 1]], [[2 * CH - 1]], [[2 * CH]], [[2 * CH + 1]], [[3 * CH + 17]],
               [[10] * 1] * 40, [[100, 0, 70000]], [[CH, CH], [5], [CH - 1, 1]], [[30000, 30000, 30000, 30000]], [[]], [[], [7]]]
+    # streams whose TOTAL length is an exact multiple of the chunk size (and one byte around it): message sizes are adjusted
+    # until the serialised stream (varint + header + messages) has exactly the requested length
+    def exact(total, nseg):
+        sizes = [[max(8, total // nseg - 40)] for _ in range(nseg)]
+        for _ in range(12):
+            st, _ = synth_segments(random.Random(1), sizes, 5000)
+            d = total - len(st)
+            if d == 0:
+                return sizes
+            sizes[-1][0] += d
+        return None
+    for total in (CH, 2 * CH, 3 * CH, CH - 1, CH + 1, 2 * CH - 1, 2 * CH + 1):
+        for nseg in (1, 19):
+            sz = exact(total, nseg)
+            if sz is not None:
+                shapes.append(sz)
     ncase = 0
     for shp in shapes:
         stream, segs = synth_segments(rng, shp, 5000)
